@@ -39,6 +39,17 @@ Theorem C01_spatial_id_form_is_same_voxel : forall tanf cosf logf l z sids,
 Proof. exact points_sid_api_ok. Qed.
 Print Assumptions C01_spatial_id_form_is_same_voxel.
 
+(* valid input never gives an error: zooms in 0..35, every point in the documented domain and a Mercator float m in [0,2)
+   (pt_ok p := pt_domain p /\ m finite /\ 0 <= m < 2; true of every stored point with Go's libm: validated on each generated case) *)
+Theorem C01_valid_input_succeeds : forall tanf cosf logf l h v, 0 <= h <= 35 -> 0 <= v <= 35 -> Forall (pt_ok tanf cosf logf) l ->
+  exists ids, points_api tanf cosf logf false l h v = Ok ids /\ List.length ids = List.length l.
+Proof. exact points_api_total. Qed.
+Print Assumptions C01_valid_input_succeeds.
+Theorem C01_valid_input_succeeds_spatial_id : forall tanf cosf logf l z, 0 <= z <= 35 -> Forall (pt_ok tanf cosf logf) l ->
+  exists sids, points_sid_api tanf cosf logf false l z = Ok sids /\ List.length sids = List.length l.
+Proof. exact points_sid_api_total. Qed.
+Print Assumptions C01_valid_input_succeeds_spatial_id.
+
 (* error cases: a zoom outside 0..35 or a nil point gives an error, for both functions *)
 Theorem C01_bad_zoom_is_error : forall tanf cosf logf has_nil l h v,
   ~ (0 <= h <= 35 /\ 0 <= v <= 35) -> points_api tanf cosf logf has_nil l h v = Err.
@@ -225,3 +236,14 @@ Example C01_nonvacuous_x : x_f 0x1.1788c154c985fp+7%float 25 = Some 29804453 /\ 
 Proof. vm_compute. auto. Qed.
 Example C01_nonvacuous_domain : exists p, pt_domain p /\ ~ x_rounding (fval (plon p)) 0 /\ ~ alt_underflow (palt p) 25.
 Proof. exact pt_domain_example. Qed.
+
+(* ---- tie to the source by regeneration (DESIGN.md 4.2): shape.CheckZoom and the two literals of SetLat (the latitude limit and 10^10),
+   read from /repo's current source on every run, are what the model uses ---- *)
+From SIDGen Require Generated.
+From SID Require GenEqCheck GenEqConst.
+Theorem C01_generated_CheckZoom_is_the_model : forall z, Generated.CheckZoom z = Ids.check_zoom z.
+Proof. exact GenEqCheck.gen_CheckZoom_eq. Qed.
+Print Assumptions C01_generated_CheckZoom_is_the_model.
+Theorem C01_generated_SetLat_literals : Generated.SetLat_limit = (850511287798, -10)%Z /\ Generated.SetLat_scale = (10 ^ 10)%Z.
+Proof. exact GenEqConst.gen_SetLat_eq. Qed.
+Print Assumptions C01_generated_SetLat_literals.
